@@ -8,6 +8,8 @@ Import ListNotations.
 Open Scope Z_scope.
 
 Record tcase := {
+  t_barrier : bool;            (* barrier case: simultaneous requests for one id, round after round *)
+  t_reqs : list bool; t_rounds : Z;
   t_iscfg : bool;
   t_c : cfg;
   t_capF : Z; t_capI : Z;
@@ -20,7 +22,9 @@ Record tcase := {
   ob_ticket : bool;
   ob_log : list rop;           (* raffle: run starts (OBorrow) and run ends (OReturn), linearised *)
   ob_gauge : list (bool * Z);  (* raffle: ticket gauges (pool is full?, value) in the order they were emitted *)
-  ob_finalF : Z; ob_finalI : Z; ob_running : Z
+  ob_finalF : Z; ob_finalI : Z; ob_running : Z;
+  ob_hist : list Z;            (* barrier: ob_hist[g] = rounds in which g requesters held a ticket for the id at once *)
+  ob_badacct : Z               (* barrier: rounds after which pools / running set were not back at the initial values *)
 }.
 
 Definition all_variants : list jvariant :=
@@ -53,8 +57,18 @@ Definition agree_raffle (c : tcase) : bool :=
   && Z.eqb (ob_finalF c) (t_capF c) && Z.eqb (ob_finalI c) (t_capI c) && Z.eqb (ob_running c) 0
   && gauge_ok (t_capF c) (t_capI c) (t_capF c) (t_capI c) (ob_gauge c).
 
+(** barrier: in the model any serving order of the requests grants the same number of tickets (Proofs: at most one);
+    every round of the implementation must show exactly that number, and the accounting must be back afterwards *)
+Definition model_granted (c : tcase) : nat := grant_count 0 (t_reqs c) (r_init (t_capF c) (t_capI c)).
+
+Definition agree_barrier (c : tcase) : bool :=
+  list_eqb Z.eqb (ob_hist c) (repeat 0 (model_granted c) ++ [t_rounds c])
+  && Z.eqb (ob_badacct c) 0
+  && Z.eqb (ob_finalF c) (t_capF c) && Z.eqb (ob_finalI c) (t_capI c) && Z.eqb (ob_running c) 0.
+
 Definition agree (v : jvariant) (c : tcase) : bool :=
-  Z.eqb (ob_outcome c) 0 && (if t_iscfg c then agree_cfg v c else agree_raffle c).
+  Z.eqb (ob_outcome c) 0
+  && (if t_barrier c then agree_barrier c else if t_iscfg c then agree_cfg v c else agree_raffle c).
 
 (** executable spec on the observation *)
 Definition spec_cfg (c : tcase) : bool :=
@@ -78,8 +92,15 @@ Definition spec_raffle (c : tcase) : bool :=
   spec_log (t_capF c) (t_capI c) [] (ob_log c)
   && Z.eqb (ob_finalF c) (t_capF c) && Z.eqb (ob_finalI c) (t_capI c) && Z.eqb (ob_running c) 0.
 
+(** never two tickets for one job id at the same time; pools and running set back after every round *)
+Definition spec_barrier (c : tcase) : bool :=
+  forallb (Z.eqb 0) (skipn 2 (ob_hist c))
+  && Z.eqb (ob_badacct c) 0
+  && Z.eqb (ob_finalF c) (t_capF c) && Z.eqb (ob_finalI c) (t_capI c) && Z.eqb (ob_running c) 0.
+
 Definition spec_ok (c : tcase) : bool :=
-  Z.eqb (ob_outcome c) 0 && (if t_iscfg c then spec_cfg c else spec_raffle c).
+  Z.eqb (ob_outcome c) 0
+  && (if t_barrier c then spec_barrier c else if t_iscfg c then spec_cfg c else spec_raffle c).
 
 (** [mismatches per variant (order of all_variants) ...; spec failures on I] *)
 Definition evaluate (cs : list tcase) : list (list N) :=
